@@ -66,6 +66,13 @@ func runC14(rc *RunCtx) {
 		w.UDPWriteErr = []int{200, 600, 1000}[rc.F.Draw(3)]
 	}
 	srv := startUDPServer(rc, w, udpServerOpts{Keys: keys, Timeout: T, Metrics: m, Direct: true})
+	// the server's goroutines before any datagram: whatever else is alive when the
+	// system is idle again belongs to an association (whoever started it, under
+	// whatever name)
+	baseTasks := map[int]bool{}
+	for _, t := range simrt.Snapshot() {
+		baseTasks[t.ID] = true
+	}
 	// targets: 0,1 are DNS servers (port 53), 2,3 are not
 	type tgt struct {
 		sock  *simnet.UDPConn
@@ -361,10 +368,14 @@ func runC14(rc *RunCtx) {
 			}
 		}
 		cur := time.Duration(-1)
+		changes := 0 // deadlines set so far that differed from the one in force (clearing it and re-setting the same value do not count)
 		for i, r := range sk.DlLog {
+			if r.T >= 0 && r.T != cur {
+				changes++
+			}
 			if r.T >= 0 && cur >= 0 && r.T < cur {
 				legit := shutdownAt >= 0 && r.At >= shutdownAt
-				if i == 1 && r.T <= r.At+skew && (firstDNS || !haveFirst) {
+				if changes == 2 && r.T <= r.At+skew && (firstDNS || !haveFirst) {
 					for j, rec := range sk.ReadLog {
 						if sk.ReadSeqs[j] < r.Seq && rec.From.Port == 53 {
 							legit = true
@@ -397,7 +408,7 @@ func runC14(rc *RunCtx) {
 		}
 	}
 	for _, t := range simrt.Snapshot() {
-		if t.Kind == "repo" && funcOf(t.Created) == "service.(*natmap).Add" {
+		if t.Kind == "repo" && !baseTasks[t.ID] {
 			rc.Failf("association-task-leak", "an association's copy goroutine is still alive when the system is idle: %s", describeTasks([]simrt.TaskInfo{t}))
 		}
 	}
@@ -479,7 +490,7 @@ func runC14(rc *RunCtx) {
 	}
 	// end state: nothing of the proxy's associations is left
 	for _, t := range simrt.Snapshot() {
-		if t.Kind == "repo" && funcOf(t.Created) == "service.(*natmap).Add" {
+		if t.Kind == "repo" && !baseTasks[t.ID] {
 			rc.Failf("association-task-leak", "an association's copy goroutine is still alive when the system is idle: %s", describeTasks([]simrt.TaskInfo{t}))
 		}
 	}
